@@ -12,6 +12,9 @@ use crate::seq::{Profile, SeqCase, SeqRunner};
 use crate::special::SpecialCase;
 use crate::world::Strategy;
 
+/// set by the worker for the thorough / geo tiers (more of the expensive fault enumerations)
+pub static THOROUGH: std::sync::atomic::AtomicBool = std::sync::atomic::AtomicBool::new(false);
+
 #[derive(Clone, Debug)]
 pub enum Case {
     Seq(SeqCase),
@@ -74,6 +77,7 @@ impl Case {
         let mut rng = Rng::new(seed);
         if family.starts_with('K') {
             let o = GenOpts {
+                thorough: THOROUGH.load(std::sync::atomic::Ordering::Relaxed),
                 custom: props.has(13),
                 solo_points: if props.has(21) { 3 } else { 0 },
                 stall_bias: props.has(3) || props.has(21),
@@ -151,7 +155,30 @@ impl Case {
                     side: ctx.side.clone(),
                     props,
                 };
-                let r = runner.run(c);
+                let mut r = runner.run(c);
+                let mut sweep_points = 0u64;
+                if c.solo_sweep && props.has(21) && r.violations.is_empty() && r.stats.aborted == 0 && r.schedule.len() <= 400 {
+                    // systematic solo windows: the same interleaving, frozen at every step for
+                    // every thread (fault enumeration over the solo point, C21)
+                    let mut base = c.clone();
+                    base.schedule = r.schedule.clone();
+                    base.strategy = Strategy::Replay;
+                    base.casfail_den = 0;
+                    base.casfail_at = Some(r.casfail_log.clone());
+                    'sweep: for step in 0..r.stats.steps {
+                        for t in 0..c.programs.len() {
+                            let mut c2 = base.clone();
+                            c2.solo = vec![(step, t)];
+                            let r2 = runner.run(&c2);
+                            sweep_points += 1;
+                            if r2.violations.iter().any(|v| v.prop == "C21") {
+                                *c = c2;
+                                r = r2;
+                                break 'sweep;
+                            }
+                        }
+                    }
+                }
                 let s = &r.stats;
                 let cs = &mut out.counters;
                 add(cs, "calls", s.calls);
@@ -168,6 +195,7 @@ impl Case {
                 add(cs, "online_ok", s.online_ok);
                 add(cs, "final_probes", s.final_probes);
                 add(cs, "runs_aborted", s.aborted);
+                add(cs, "fault_solo_sweep_points", sweep_points);
                 for (k, v) in r.probes.fields() {
                     if k == "solo_max_steps_seen" {
                         maxc(cs, k, v);
